@@ -380,8 +380,8 @@ def run(a, res):
             t.join()
     finally:
         org.stop()
-    for e in errors:
-        res.harness_failure.append(e)
+    if errors:
+        raise RuntimeError("instance(s) failed:\n" + "\n".join(errors))
     res.count("origin_requests", org.count())
     if not a.replay_data and totals["judged_inside"] < max(3, len(cases)):
         res.inconclusive.append(f"only {totals['judged_inside']} requests fell strictly inside a fetch window")
